@@ -487,7 +487,12 @@ func init() {
 			prefixes = append(prefixes, []int{7, 10}, []int{0, 2}, []int{7, 8})
 		}
 		for _, pf := range prefixes {
-			p2 := e1.PathsFrom(pf, len(c03Actions), depth+2, func() e1.Runner { return newC03Runner(c, st) }, r.TooMany)
+			// (two more steps behind the prefix in the quick tier, whose depth is 4; one more in the thorough tier)
+			deep := depth + 2
+			if !c.Quick() {
+				deep = depth + 1
+			}
+			p2 := e1.PathsFrom(pf, len(c03Actions), deep, func() e1.Runner { return newC03Runner(c, st) }, r.TooMany)
 			ps.Paths += p2.Paths
 			ps.Steps += p2.Steps
 			ps.Pruned += p2.Pruned
